@@ -75,6 +75,17 @@ func genPlace(t *rapid.T, label string) place {
 		// offset up to 5 units of the (scaled) canonical frame: |coordinates| stay within ~10 shape diameters
 		p.Off = kit.V2{gen.F(t, -5, 5, label+".ox") * p.Scale, gen.F(t, -5, 5, label+".oy") * p.Scale}
 	}
+	switch rapid.IntRange(0, 9).Draw(t, label+".extreme") {
+	case 0:
+		// model units: the same polygon in nanometres or in light-seconds (triangulating is a matter of angles and
+		// orientation, which do not depend on the unit)
+		p.Scale = gen.LogF(t, 1e-9, 1e9, label+".unit")
+		p.Off = kit.V2{gen.F(t, -5, 5, label+".uox") * p.Scale, gen.F(t, -5, 5, label+".uoy") * p.Scale}
+	case 1:
+		// far from the origin: up to 1e6 diameters away (the coordinates keep ~1e-10 of a diameter of resolution)
+		d := gen.LogF(t, 1e2, 1e6, label+".far")
+		p.Off = kit.V2{gen.F(t, -1, 1, label+".fx") * d * p.Scale, gen.F(t, -1, 1, label+".fy") * d * p.Scale}
+	}
 	return p
 }
 
